@@ -1,0 +1,17 @@
+//go:build verif
+
+package buffer
+
+// Read-only accessors for the verification harness (/verif). Compiled only with -tags verif.
+
+// VerifPoolCaps returns the capacity of every block of the StreamLexer's buffer pool and whether it is active.
+func (z *StreamLexer) VerifPoolCaps() (caps []int, active []bool) {
+	for _, b := range z.pool.pool {
+		caps = append(caps, cap(b.buf))
+		active = append(active, b.active)
+	}
+	return
+}
+
+// VerifBufCap returns the capacity of the current buffer.
+func (z *StreamLexer) VerifBufCap() int { return cap(z.buf) }
